@@ -10,6 +10,9 @@
 //   B <key> <cancelAtEvent> <mode> <nitems> (<cancel> <n> k1..kn)*   build; mode 0 = hook-driven, 1 = free threads
 //   O <key>                                           oracle: value computed by a brand-new engine with no database
 //   D                                                 dump the database
+//   Q <0|1>                                           database backend of the engines created from now on: 0 = the observing
+//                                                     in-memory database, 1 = the real SQLite database in a scratch file
+//                                                     (no G/DS/DI/DB/DE events then; `W` removes the file)
 // Rule line:
 //   R key kind sigBase validMode validArg force deferred vmod
 //     nstatic (key id kind)*  nwhen (ck cid cm cr nreq (key id kind)*)*  ndisc (ck cid cm cr key)*
@@ -409,13 +412,34 @@ void hook(int point, BuildEngine*) {
 std::unique_ptr<Delegate> delegate;
 std::unique_ptr<BuildEngine> engine;
 
+bool sqliteBackend = false;
+std::string sqlitePath;
+
 void newEngine(bool withDB) {
   engine.reset();
   delegate.reset(new Delegate());
   engine.reset(new BuildEngine(*delegate));
   if (withDB) {
     std::string err;
-    engine->attachDB(std::unique_ptr<BuildDB>(new MemDB()), &err);
+    if (sqliteBackend) {
+      if (sqlitePath.empty()) {
+        char tmpl[] = "/tmp/vengine-db-XXXXXX";
+        int fd = mkstemp(tmpl);
+        if (fd >= 0) close(fd);
+        sqlitePath = tmpl;
+        unlink(sqlitePath.c_str());
+      }
+      auto db = createSQLiteBuildDB(sqlitePath, /*clientVersion=*/1, /*recreateUnmatchedVersion=*/true, &err);
+      if (db) engine->attachDB(std::move(db), &err);
+    } else {
+      engine->attachDB(std::unique_ptr<BuildDB>(new MemDB()), &err);
+    }
+  }
+}
+void removeSqliteFile() {
+  if (!sqlitePath.empty()) {
+    unlink(sqlitePath.c_str());
+    unlink((sqlitePath + "-journal").c_str());
   }
 }
 
@@ -512,6 +536,8 @@ int main(int argc, char** argv) {
     } else if (op == 'W') {
       store = Store();
       env.clear();
+      engine.reset();
+      removeSqliteFile();
       newEngine(true);
       std::cout << "ok\n";
     } else if (op == 'M') {
@@ -592,6 +618,12 @@ int main(int argc, char** argv) {
         for (auto& d : kv.second.deps) out += " " + keyNum(KeyType(d.first)) + ":" + std::to_string(d.second);
       }
       std::cout << out << "\n";
+    } else if (op == 'Q') {
+      sqliteBackend = nums(line, 1).at(0) != 0;
+      engine.reset();
+      removeSqliteFile();
+      newEngine(true);
+      std::cout << "ok\n";
     } else if (op == 'F') {
       store.failNextSet = true;
       std::cout << "ok\n";
@@ -601,5 +633,6 @@ int main(int argc, char** argv) {
     std::cout.flush();
   }
   engine.reset();
+  removeSqliteFile();
   return 0;
 }
